@@ -82,6 +82,9 @@ type control struct {
 	args   slip.List
 	argPos int
 	stop   bool
+	// parent is the control of the enclosing directive when the output of
+	// this control is appended to the output of that one.
+	parent *control
 }
 
 type floatFormatter struct {
@@ -102,6 +105,30 @@ type floatFormatter struct {
 func (c *control) Write(p []byte) (n int, err error) {
 	c.out = append(c.out, p...)
 	return len(p), nil
+}
+
+// column returns the number of bytes written since the last line break, the
+// output of the enclosing controls included.
+func (c *control) column() int {
+	if i := bytes.LastIndexAny(c.out, "\n\r\f"); 0 <= i {
+		return len(c.out) - i - 1
+	}
+	if c.parent != nil {
+		return len(c.out) + c.parent.column()
+	}
+	return len(c.out)
+}
+
+// lastByte returns the last byte written, the output of the enclosing controls
+// included, or zero if nothing has been written.
+func (c *control) lastByte() byte {
+	if 0 < len(c.out) {
+		return c.out[len(c.out)-1]
+	}
+	if c.parent != nil {
+		return c.parent.lastByte()
+	}
+	return 0
 }
 
 func (c *control) process() {
@@ -398,7 +425,7 @@ func (c *control) dirAmp(colon, at bool, params []any) {
 			c.invalidDirParam(c.str, c.pos)
 		}
 	}
-	if 0 < len(c.out) && c.out[len(c.out)-1] == '\n' {
+	if c.lastByte() == '\n' {
 		n--
 	}
 	for ; 0 < n; n-- {
@@ -462,6 +489,7 @@ func (c *control) dirCase(colon, at bool, params []any) {
 	c2 := *c
 	c2.out = make([]byte, 0, pos-c.pos)
 	c2.end = pos
+	c2.parent = c
 	c2.process()
 
 	c.pos = pos + 2 // past ~)
@@ -755,9 +783,10 @@ func (c *control) dirProc(colon, at bool, params []any) {
 	ctrl := []byte(ss)
 	c.argPos++
 	c2 := control{
-		scope: c.scope,
-		str:   ctrl,
-		end:   len(ctrl),
+		scope:  c.scope,
+		str:    ctrl,
+		end:    len(ctrl),
+		parent: c,
 	}
 	if at {
 		c2.args = c.args
@@ -1432,7 +1461,6 @@ func (c *control) dirT(colon, at bool, params []any) {
 	var (
 		target int // target offset from 'from'
 		from   int // from the start of the line
-		start  int // start of line
 	)
 	if at {
 		for len(spaces) < colnum {
@@ -1440,26 +1468,14 @@ func (c *control) dirT(colon, at bool, params []any) {
 			colnum -= len(spaces)
 		}
 		c.out = append(c.out, spaces[:colnum]...)
-		start = bytes.LastIndexAny(c.out, "\n\r\f")
-		if start < 0 {
-			from = len(c.out)
-		} else {
-			start++
-			from = len(c.out) - start
-		}
+		from = c.column()
 		if colinc == 0 || from == from/colinc*colinc {
 			target = from
 		} else {
 			target = from/colinc*colinc + colinc
 		}
 	} else {
-		start = bytes.LastIndexAny(c.out, "\n\r\f")
-		if start < 0 {
-			from = len(c.out)
-		} else {
-			start++
-			from = len(c.out) - start
-		}
+		from = c.column()
 		target = colnum * colinc
 		if colinc == 0 {
 			target = max(colnum, from)
@@ -1649,6 +1665,7 @@ func (c *control) subProcess(str string) {
 		end:    len(str),
 		args:   c.args,
 		argPos: c.argPos,
+		parent: c,
 	}
 	c2.process()
 	c.out = append(c.out, c2.out...)
@@ -1661,6 +1678,7 @@ func (c *control) dirIter(colon, at bool, params []any) {
 	c2 := *c
 	c2.out = make([]byte, 0, pos-start)
 	c2.end = pos
+	c2.parent = c
 	var atLeastOnce bool
 	c.pos = pos + 2
 	// If terminated by ~:}...
